@@ -38,8 +38,8 @@ required; whatever is returned must multiply back to n with parts > 1).
 # 63,64,65 (P-1/P+1), 127,128,129,255,256,257,320,384,447,448,449,499,500 bits; ecm128 at 65,96,126,127,128 bits; gcd_factors /
 # check_gcd_factor(s) at 255,256,257,448,500 bits; PM1Base at 63 bits. Not added: n of 501..512 bits (outside factor()'s range; a
 # 512-bit n makes ecm_curve panic in `invalid point` because ZmodN::add is wrong for 512-bit moduli = C07 add_512bit_counterexample).
-# NOTE (found by the audit, not listed, the cases are NOT in the family because they fail on the unchanged tree):
-#   PM1Base::factor(n: u64, ..) computes `xr + minus_one_r` (and `h + minus_one_r`) in u64; both terms are < n, so for n > 2^65/3 the
+# NOTE (found by the audit; repaired in /repo by fix 7e3b2f6, after which the 64-bit cases joined the family and the corpus):
+#   PM1Base::factor(n: u64, ..) computed `xr + minus_one_r` (and `h + minus_one_r`) in u64; both terms are < n, so for n > 2^65/3 the
 #   sum can exceed 2^64: release wraps (the gcd is taken with a wrong value: the factor is missed), the checked profile panics.
 #   `s2_pm1base 15797939067124976089 4000 33923 2423 264`: release `none` (33923 - 1 = 2*7*2423, large prime number 264 < budget -
 #   1000: must be found), chk panic at pollard_pm1.rs:144 `attempt to add with overflow`. Callers in /repo (benches, tests) stay
@@ -1307,20 +1307,23 @@ def boundary_cases(rng, tier):
             vals = ",".join(map(str, chain_values(rng, nred, ps[1:], rng.choice([2, 4, 8]))))
             yield Case(f"s2_cgf {n} {ps[0]} {nred} {vals}", tag=f"edge{bits}")
             yield Case(f"s2_cgf1 {nred} {vals}", tag=f"edge{bits}")
-        # ---- PM1Base::factor takes a u64 but computes xr + (n - R mod n) in u64: sound below 2^63 only (above 2^65/3 the sum
-        # can wrap: see the SIZE AUDIT note); the last supported size
+        # ---- PM1Base::factor takes any odd u64; it used to compute xr + (n - R mod n) in u64, which wraps above 2^65/3
+        # (fix 7e3b2f6): 63-bit and 64-bit n, the latter up to the top of the type
         larges_index(503)
-        made = 0
-        while made < 6:
-            l = next_prime(rng.randrange(500, 5000))
-            p = 2 * rng.choice([1, 3, 5, 7, 9, 15]) * l + 1
-            if not is_prime(p) or pow(2, (p - 1) // l, p) == 1:
-                continue
-            lo, hi = -(-(1 << 62) // p), ((1 << 63) - 1) // p
-            qq = 2 * next_prime(rng.randrange(lo // 2, hi // 2)) + 1
-            if is_prime(qq) and lo <= qq <= hi:
-                made += 1
-                yield Case(f"s2_pm1base {p * qq} {rng.choice([1024, 1600, 4000, 7000, 7000])} {p} {l} {larges_index(l)}", tag="edge63")
+        for top, tag in ((63, "edge63"), (64, "edge64")):
+            made = 0
+            while made < 6:
+                l = next_prime(rng.randrange(500, 5000))
+                p = 2 * rng.choice([1, 3, 5, 7, 9, 15]) * l + 1
+                if not is_prime(p) or pow(2, (p - 1) // l, p) == 1:
+                    continue
+                lo, hi = -(-(1 << (top - 1)) // p), ((1 << top) - 1) // p
+                if made == 5 and top == 64:
+                    lo = ((1 << 64) - (1 << 58)) // p       # next to 2^64
+                qq = 2 * next_prime(rng.randrange(lo // 2, hi // 2)) + 1
+                if is_prime(qq) and lo <= qq <= hi:
+                    made += 1
+                    yield Case(f"s2_pm1base {p * qq} {rng.choice([1024, 1600, 4000, 7000, 7000])} {p} {l} {larges_index(l)}", tag=tag)
 
 
 def cases(tier, rng, extended=False):
